@@ -4,6 +4,7 @@ import (
 	"context"
 	"errors"
 	"fmt"
+	"os"
 
 	"github.com/yaricom/goNEAT/v4/neat"
 	"github.com/yaricom/goNEAT/v4/neat/genetics"
@@ -13,13 +14,13 @@ import (
 
 func init() {
 	Register(&Scenario{
-		Prop: "C20", Run: scenarioC20, QuickRuns: 12000, ThoroughRuns: 1500000, Level: "fault_enumeration",
-		Rule:       "one run = one seeded experiment shape (1..N trials, 1..M generations, which generation if any is reported solved per trial, with or without observer, sequential or parallel executor) executed by the real Experiment.Execute with a scripted evaluator and observer that write one sequence-numbered event log, under a fault script: none, an evaluator error, or a context cancellation at evaluator entry / by a timer at a simulated instant in mid-evaluation (fake clock) / evaluator exit / inside each of the three observer callbacks / at the 'epoch.prepared' point / at the k-th offspring / at the speciation of the babies. The log must be a prefix of the protocol's ideal sequence, complete when no fault fired; no evaluation may begin after the fault instant; the returned error must be the injected one / context.Canceled (nil only if the protocol had completed); generation g>=1 is evaluated on organisms born in turnover g-1, a solved trial's population is never turned over, every trial starts from a freshly spawned population, finished trials are recorded in order. A share of the runs sweeps every single-fault point of its shape (complete for that shape). A case is one Execute call; non-trivial when a fault fired or a trial was solved before its last generation; distinct by (shape, solved pattern, fault)",
+		Prop: "C20", Run: scenarioC20, CLI: true, QuickRuns: 12000, ThoroughRuns: 1500000, Level: "fault_enumeration",
+		Rule:       "one run = one seeded experiment shape (1..N trials, 1..M generations, which generation if any is reported solved per trial, with or without observer, sequential or parallel executor) executed by the real Experiment.Execute with a scripted evaluator and observer that write one sequence-numbered event log, under a fault script: none, an evaluator error, or a context cancellation at evaluator entry / by a timer at a simulated instant in mid-evaluation (fake clock) / evaluator exit / inside each of the three observer callbacks / at the 'epoch.prepared' point / at the k-th offspring / at the speciation of the babies. The log must be a prefix of the protocol's ideal sequence, complete when no fault fired; no evaluation may begin after the fault instant; the returned error must be the injected one / context.Canceled (nil only if the protocol had completed); generation g>=1 is evaluated on organisms born in turnover g-1, a solved trial's population is never turned over, every trial starts from a freshly spawned population, finished trials are recorded in order. A share of the runs sweeps every single-fault point of its shape (complete for that shape). One run in forty drives the shipped command-line runner (package main built from the working tree, child process, XOR experiment, drawn small configuration, with or without the -trials option) and judges the experiment record it saves: the requested number of trials in order, generations 0,1,2,... up to the maximum, nothing after a solved one. Evaluator errors come plain or wrapping context.Canceled / DeadlineExceeded of a context of the evaluator's own. A case is one Execute call; non-trivial when a fault fired or a trial was solved before its last generation; distinct by (shape, solved pattern, fault)",
 		RealParts:  []string{"experiment.Experiment.Execute, epochExecutorForContext, both epoch executors, NewPopulation, context propagation into Species.reproduce and Population.speciate", "time.Now / time.Since under the testing/synctest fake clock (sequential executor)"},
 		StubParts:  []string{"GenerationEvaluator and TrialRunObserver (scripted, logging)", "wall clock (fake clock for the sequential executor; real, unobserved clock for the parallel one)", "goroutine choice in parallel runs"},
 		FaultKinds: []string{"fault.eval-error", "fault.cancel@eval-entry", "fault.cancel@eval-mid(timer)", "fault.cancel@eval-exit", "fault.cancel@TrialRunStarted", "fault.cancel@EpochEvaluated", "fault.cancel@TrialRunFinished", "fault.cancel@epoch.prepared", "fault.cancel@offspring-k", "fault.cancel@speciate.begin", "fault.deadline-expired@eval-mid", "fault.eval-error-after-solved"},
 		Assumes:    []string{"after a cancellation the observer may still learn that the next trial started (the run notices the cancellation at the next generation check); that is a prefix of the ideal sequence and accepted"},
-		ProbeNames: []string{"probe.solved_early", "probe.solved_last_generation", "probe.unsolved_trial", "probe.no_observer", "probe.parallel", "probe.fault_free_run", "probe.nil_after_cancel_protocol_complete", "probe.single_fault_sweep", "probe.multi_fault", "probe.preallocated_trials", "probe.reused_experiment_object", "probe.zero_generations", "probe.deadline_context"},
+		ProbeNames: []string{"probe.solved_early", "probe.solved_last_generation", "probe.unsolved_trial", "probe.no_observer", "probe.parallel", "probe.fault_free_run", "probe.nil_after_cancel_protocol_complete", "probe.single_fault_sweep", "probe.multi_fault", "probe.preallocated_trials", "probe.reused_experiment_object", "probe.zero_generations", "probe.deadline_context", "probe.command_line_runner", "probe.cli_trials_option_overrides"},
 	})
 }
 
@@ -283,6 +284,11 @@ func runExpOnce(c *RunCtx, s *ExpSim) {
 
 func scenarioC20(c *RunCtx) {
 	t := c.T
+	// one run in forty drives the shipped command-line runner instead (its -trials option, what it saves)
+	if os.Getenv("VERIF_CLI_BIN") != "" && t.Chance("commandLineRunner", 1, 40) {
+		scenarioC20CLI(c)
+		return
+	}
 	maxTrials, maxGens, maxPop := 3, 4, 10
 	if c.Thorough {
 		maxTrials, maxGens, maxPop = 4, 6, 20
